@@ -13,6 +13,7 @@ import (
 	"io"
 	"os"
 	"runtime"
+	"sync"
 	"time"
 
 	"github.com/mgtv-tech/redis-GunYu/config"
@@ -146,6 +147,51 @@ func main() {
 		emit(map[string]interface{}{"site": "SlotTag", "k": ints([]byte(tag)), "slot": s})
 		ntag++
 	}
+	// the same filter object is shared by the parallel snapshot workers and the command path: its answers must not depend on who
+	// else is asking.  Eight goroutines ask one filter about a small set of keys (each repeats its keys); every answer that
+	// differs from the one the filter gave when asked alone is recorded (TLC then says which of the two is wrong)
+	{
+		var ckeys [][]byte
+		for i := 0; i < 64; i++ {
+			ckeys = append(ckeys, []byte(fmt.Sprintf("order:{u%04d}:items", r.Intn(5000))))
+		}
+		for fi, f := range filters {
+			alone := make([]bool, len(ckeys))
+			for i, k := range ckeys {
+				alone[i] = !f.FilterSlot(string(k))
+			}
+			type diff struct {
+				k      []byte
+				accept bool
+			}
+			var mu sync.Mutex
+			var diffs []diff
+			var wg sync.WaitGroup
+			for g := 0; g < 8; g++ {
+				wg.Add(1)
+				go func(g int) {
+					defer wg.Done()
+					for it := 0; it < 40000; it++ {
+						i := (it/3*7 + g*11) % len(ckeys) // every key is asked three times in a row
+						if acc := !f.FilterSlot(string(ckeys[i])); acc != alone[i] {
+							mu.Lock()
+							if len(diffs) < 20 {
+								diffs = append(diffs, diff{ckeys[i], acc})
+							}
+							mu.Unlock()
+						}
+					}
+				}(g)
+			}
+			wg.Wait()
+			for i, k := range ckeys[:8] {
+				emit(map[string]interface{}{"site": "FilterSlotWhite", "k": ints(k), "lo": int(ranges[fi][0]), "hi": int(ranges[fi][1]), "accept": alone[i], "concurrent": false})
+			}
+			for _, d := range diffs {
+				emit(map[string]interface{}{"site": "FilterSlotWhite", "k": ints(d.k), "lo": int(ranges[fi][0]), "hi": int(ranges[fi][1]), "accept": d.accept, "concurrent": true})
+			}
+		}
+	}
 	// replay units of the bidirectional replay (incremental and snapshot path, with and without hash-tag stripping): the slot a
 	// unit is bound to - read off the slot tag of the marker key that leads its transaction - against the key the unit writes
 	nunits := 0
@@ -268,7 +314,9 @@ func unitSlots(keys [][]byte, path string, tagSlot map[string]int) []unitObs {
 			if err != nil {
 				hx.Fatal("rdbgen: %v", err)
 			}
-			go func() { done <- ro.Send(ctx, hx.NewChanReader(bytes.NewReader(data), false, runID, 1000, int64(len(data)))) }()
+			go func() {
+				done <- ro.Send(ctx, hx.NewChanReader(bytes.NewReader(data), false, runID, 1000, int64(len(data))))
+			}()
 		}
 		var sendErr error
 		select {
